@@ -393,3 +393,45 @@ Fixpoint seq_ok (K : nat -> kind) (e : expr) : bool :=
 Definition wf_inh (g : list rule) (K : nat -> kind) (rank : nat -> nat) : Prop :=
   (forall x y, K x = KAbstract -> In y (rule_refs g x) -> K y = KAbstract -> rank y < rank x) /\
   (forall x e, K x = KAbstract -> r_body (rule_of g x) = Body e -> seq_ok K e = true).
+
+(* ------------------------------------------------------------------ the recorded lists, declaratively *)
+(* _add_reffered_classes as a pure function of the final kinds: what _tx_inh_by holds when every
+   kind the walk reads is already final (no state, no nested resolution) *)
+Fixpoint walk (K : nat -> kind) (e : expr) (acc : list nat) {struct e} : bool * list nat :=
+  match e with
+  | Term => (false, acc)
+  | Ref r => if negb (is_match (K r)) && negb (mem r acc) then (true, acc ++ [r]) else (false, acc)
+  | Seq es =>
+      (fix go (l : list expr) (acc : list nat) {struct l} : bool * list nat :=
+         match l with
+         | [] => (false, acc)
+         | x :: l' => let (b, a1) := walk K x acc in if b then (true, a1) else go l' a1
+         end) es acc
+  | Choice es =>
+      (fix go (l : list expr) (acc : list nat) {struct l} : bool * list nat :=
+         match l with
+         | [] => (false, acc)
+         | x :: l' => let (b, a1) := walk K x acc in let (b', a2) := go l' a1 in (b || b', a2)
+         end) es acc
+  | Opt e' | Plus e' => walk K e' acc
+  end.
+
+Definition recorded (g : list rule) (K : nat -> kind) (x : nat) : list nat :=
+  match r_body (rule_of g x) with
+  | Alias t => if is_match (K t) then [] else [t]
+  | Body e => snd (walk K e [])
+  end.
+
+Fixpoint list_nat_eqb (a b : list nat) : bool :=
+  match a, b with
+  | [], [] => true
+  | x :: a', y :: b' => Nat.eqb x y && list_nat_eqb a' b'
+  | _, _ => false
+  end.
+
+(* every abstract rule's recorded list is the pure walk of its body *)
+Definition inh_is_recorded (g : list rule) (s : st) : bool :=
+  forallb (fun x => match types s x with
+                    | KAbstract => list_nat_eqb (inh s x) (recorded g (types s) x)
+                    | _ => true
+                    end) (seq 0 (length g)).
